@@ -254,6 +254,7 @@ def rule_op_own(ctx: RuleContext, p: Program, rid: str) -> None:
 
 def run(ctx: RuleContext, p: Program) -> None:
     ctx.try_rule(grammar_rules.rule_op_table, p, 'OP-TABLE')
+    ctx.try_rule(grammar_rules.rule_gram_chain, p, 'GRAM-CHAIN')
     ctx.try_rule(rule_op_pair, p, 'OP-PAIR')
     ctx.try_rule(rule_op_level, p, 'OP-LEVEL')
     ctx.try_rule(rule_op_own, p, 'OP-OWN')
